@@ -293,6 +293,18 @@ func (configgen *ConfigGeneratorImpl) buildGatewayTCPBasedFilterChains(
 		//   or TLS servers using simple/mutual/passthrough TLS
 		//   or HTTPS servers using passthrough TLS
 		// This process typically yields multiple filter chain matches (with SNI) [if TLS is used]
+
+		// The SNI hosts of the servers that terminate TLS become filter chain matches of this listener. Make them
+		// known first, so that a VirtualService SNI route of a passthrough server for one of these hosts is skipped
+		// as a duplicate instead of yielding a second filter chain with the same match (Envoy rejects the listener).
+		for _, server := range serversForPort.Servers {
+			if server.Tls != nil && !gateway.IsPassThroughServer(server) {
+				if tlsHostsByPort[port.Number] == nil {
+					tlsHostsByPort[port.Number] = map[string]string{}
+				}
+				model.CheckDuplicates(mergedGateway.TLSServerInfo[server].SNIHosts, server.Bind, tlsHostsByPort[port.Number])
+			}
+		}
 		for _, server := range serversForPort.Servers {
 			if gateway.IsHTTPSServerWithTLSTermination(server) {
 				routeName := mergedGateway.TLSServerInfo[server].RouteName
